@@ -606,6 +606,168 @@ fn scenario(s: Scheme, name: &str) -> Option<(Option<bool>, bool)> {
     Some((expect, got))
 }
 
+// =============================================================================================
+// Layer 1b (BFS world `claim-issuer-keys`): key management histories of an issuer assembled from
+// the library helpers. After every accepted step a genuine claim signed by each key for each topic
+// is presented: the issuer must confirm it exactly when that key is currently allowed for that
+// topic (at any registry), the claim is not revoked and carries the current nonce.
+
+#[derive(Clone, Debug, PartialEq, Eq)]
+enum KOp {
+    Allow { k: usize, r: usize, t: u32 },
+    Remove { k: usize, r: usize, t: u32 },
+    Bump { t: u32 },
+    Revoke { k: usize, t: u32, on: bool },
+}
+
+#[derive(Clone, Debug, PartialEq, Eq, Hash)]
+struct KModel {
+    allowed: [[[bool; 2]; 2]; 2], // [key][registry][topic-1]
+    nonce: [u32; 2],
+    revoked: [[bool; 2]; 2], // [key][topic-1]: the claim (data) signed by key k for topic t
+}
+
+struct Keys {
+    thorough: bool,
+}
+
+struct KInst {
+    e: Env,
+    issuer: Address,
+    identity: Address,
+    regs: [Address; 2],
+}
+
+const KEY_SEEDS: [u8; 2] = [0x11, 0x22];
+
+impl Keys {
+    fn pk(k: usize) -> Vec<u8> {
+        Scheme::Ed25519.sign(KEY_SEEDS[k], b"x").0
+    }
+    fn data(k: usize, t: u32) -> Vec<u8> {
+        claim_data(format!("claim-by-key-{k}-for-topic-{t}").as_bytes())
+    }
+    fn exec(&self, i: &KInst, op: &KOp) -> bool {
+        let e = &i.e;
+        let b = |v: &[u8]| Bytes::from_slice(e, v);
+        match op {
+            KOp::Allow { k, r, t } => call_mocked(e, &i.issuer, "allow_key", (b(&Self::pk(*k)), i.regs[*r].clone(), wrap::ED25519, *t).into_val(e)).is_ok(),
+            KOp::Remove { k, r, t } => call_mocked(e, &i.issuer, "remove_key", (b(&Self::pk(*k)), i.regs[*r].clone(), wrap::ED25519, *t).into_val(e)).is_ok(),
+            KOp::Bump { t } => call_mocked(e, &i.issuer, "bump_nonce", (i.identity.clone(), *t).into_val(e)).is_ok(),
+            KOp::Revoke { k, t, on } => call_mocked(e, &i.issuer, "revoke", (i.identity.clone(), *t, b(&Self::data(*k, *t)), *on).into_val(e)).is_ok(),
+        }
+    }
+    fn confirms(&self, i: &KInst, k: usize, t: u32, nonce: u32) -> bool {
+        let e = &i.e;
+        let data = Self::data(k, t);
+        let sig = Scheme::Ed25519.sign(KEY_SEEDS[k], &message([7u8; 32], &i.issuer, &i.identity, t, nonce, &data)).1;
+        view(e, &i.issuer, "is_claim_valid", (i.identity.clone(), t, wrap::ED25519, Bytes::from_slice(e, &sig), Bytes::from_slice(e, &data)).into_val(e)).is_ok()
+    }
+}
+
+impl World for Keys {
+    type Op = KOp;
+    type Model = KModel;
+    type Inst = KInst;
+
+    fn name(&self) -> String {
+        "claim-issuer-keys".into()
+    }
+    fn fresh(&self, _seed: usize) -> (KInst, KModel) {
+        let e = envx::mk_env(100);
+        let issuer = e.register(wrap::RealIssuer, ());
+        let identity = e.register(wrap::IdentityWrap, ());
+        let regs = [e.register(wrap::CtiWrap, ()), e.register(wrap::CtiWrap, ())];
+        for r in &regs {
+            let mut ts: SVec<u32> = SVec::new(&e);
+            for t in TOPICS {
+                call_mocked(&e, r, "add_claim_topic", (t,).into_val(&e)).expect("topic");
+                ts.push_back(t);
+            }
+            call_mocked(&e, r, "add_trusted_issuer", (issuer.clone(), ts).into_val(&e)).expect("issuer");
+        }
+        (KInst { e, issuer, identity, regs }, KModel { allowed: [[[false; 2]; 2]; 2], nonce: [0; 2], revoked: [[false; 2]; 2] })
+    }
+    fn ops(&self, _i: &KInst, m: &KModel, _d: usize) -> Vec<KOp> {
+        let mut v = vec![];
+        for k in 0..2 {
+            for r in 0..2 {
+                for t in TOPICS {
+                    v.push(KOp::Allow { k, r, t });
+                    v.push(KOp::Remove { k, r, t });
+                }
+            }
+        }
+        for t in TOPICS {
+            if m.nonce[(t - 1) as usize] < 1 {
+                v.push(KOp::Bump { t });
+            }
+        }
+        if self.thorough {
+            for t in TOPICS {
+                v.push(KOp::Revoke { k: 0, t, on: !m.revoked[0][(t - 1) as usize] });
+            }
+        } else {
+            v.push(KOp::Revoke { k: 0, t: 1, on: !m.revoked[0][0] });
+        }
+        v
+    }
+    fn kind(&self, op: &KOp) -> String {
+        match op {
+            KOp::Allow { .. } => "allow_key",
+            KOp::Remove { .. } => "remove_key",
+            KOp::Bump { .. } => "invalidate_claim_signatures",
+            KOp::Revoke { .. } => "set_claim_revoked",
+        }
+        .into()
+    }
+    fn apply(&self, i: &mut KInst, op: &KOp) {
+        self.exec(i, op);
+    }
+    fn step(&self, i: &mut KInst, m: &mut KModel, op: &KOp, cx: &mut StepCtx<Self>) -> Result<bool, Violation> {
+        if !self.exec(i, op) {
+            return Ok(false);
+        }
+        match op {
+            KOp::Allow { k, r, t } => m.allowed[*k][*r][(*t - 1) as usize] = true,
+            KOp::Remove { k, r, t } => m.allowed[*k][*r][(*t - 1) as usize] = false,
+            KOp::Bump { t } => m.nonce[(*t - 1) as usize] += 1,
+            KOp::Revoke { k, t, on } => m.revoked[*k][(*t - 1) as usize] = *on,
+        }
+        for k in 0..2 {
+            for t in TOPICS {
+                let ti = (t - 1) as usize;
+                let allowed = (0..2).any(|r| m.allowed[k][r][ti]);
+                let want = allowed && !m.revoked[k][ti];
+                let got = self.confirms(i, k, t, m.nonce[ti]);
+                cx.stats.count(if want { "issuer-expected-to-confirm" } else { "issuer-expected-to-reject" }, 1);
+                ensure!(
+                    got == want,
+                    if got { "invalid-claim-confirmed" } else { "genuine-claim-rejected" },
+                    "after {:?}: a genuine claim for topic {t} signed by key K{} (current nonce {}) is {} by the issuer, but that key is {} for the topic (authorizations [registry][topic] {:?}) and the claim is {}",
+                    op,
+                    k + 1,
+                    m.nonce[ti],
+                    if got { "confirmed" } else { "rejected" },
+                    if allowed { "currently allowed" } else { "not allowed" },
+                    m.allowed[k],
+                    if m.revoked[k][ti] { "revoked" } else { "not revoked" }
+                );
+                if m.nonce[ti] > 0 {
+                    ensure!(!self.confirms(i, k, t, m.nonce[ti] - 1), "invalid-claim-confirmed", "after {:?}: a claim for topic {t} signed by K{} over the superseded nonce {} is confirmed", op, k + 1, m.nonce[ti] - 1);
+                }
+            }
+        }
+        Ok(true)
+    }
+    fn key(&self, i: &KInst) -> [u8; 32] {
+        envx::storage_digest(&i.e, false)
+    }
+    fn model_digest(&self, m: &KModel) -> u64 {
+        vh::engine::dig(m)
+    }
+}
+
 fn scenario_names(tier: Tier) -> Vec<String> {
     let mut v: Vec<String> = [
         "genuine",
@@ -733,12 +895,13 @@ fn main() {
         |tier: Tier, r: &mut Runner| {
             r.world(&Ver { thorough: tier == Tier::Thorough }, &Bounds::new(tier.pick(5, 7), tier.pick(30, 400)));
             layer1(tier, r);
+            r.world(&Keys { thorough: tier == Tier::Thorough }, &Bounds::new(tier.pick(6, 14), tier.pick(30, 400)));
             if let Some(rep) = r.report() {
                 rep.require(
-                    &["add_claim_topic", "remove_claim_topic", "add_trusted_issuer", "remove_trusted_issuer", "update_issuer_claim_topics", "add_claim", "remove_claim", "issuer-answer-flip"],
-                    &["add_claim_topic", "remove_claim_topic", "add_trusted_issuer", "remove_trusted_issuer", "add_claim", "remove_claim"],
+                    &["add_claim_topic", "remove_claim_topic", "add_trusted_issuer", "remove_trusted_issuer", "update_issuer_claim_topics", "add_claim", "remove_claim", "issuer-answer-flip", "allow_key", "remove_key", "invalidate_claim_signatures", "set_claim_revoked"],
+                    &["add_claim_topic", "remove_claim_topic", "add_trusted_issuer", "remove_trusted_issuer", "add_claim", "remove_claim", "allow_key", "remove_key"],
                 );
-                rep.require_counter(&["verify-expected-ok", "verify-expected-fail"]);
+                rep.require_counter(&["verify-expected-ok", "verify-expected-fail", "issuer-expected-to-confirm", "issuer-expected-to-reject"]);
             }
         },
     );
